@@ -106,12 +106,34 @@ func encodeKey(key any) string {
 	return encodeOne(key)
 }
 
+// keyPartEscaper escapes the tuple separator and the escape character inside a
+// string key part; strings without them are unchanged.
+var keyPartEscaper = strings.NewReplacer("\\", "\\\\", "\x1f", "\\\x1f")
+
 func encodeOne(v any) string {
 	if v == nil {
 		return "<nil>"
 	}
 	// 数值按 SQL 语义归一：1(int)/1.0(float64)/1(uint) 视作相等。否则 JSON 流解码
 	// 出的 float64 键与类型化维度表的 int 键永不匹配，INNER JOIN 静默丢行。
+	// Integers are written exactly: through float64 distinct integers beyond 2^53
+	// would share a key. The digits agree with the float form of the same number
+	// (FormatFloat 'f' prints an integral float as its exact decimal integer),
+	// so 1 (int) and 1.0 (float64) still match.
+	switch x := v.(type) {
+	case int:
+		return "n:" + strconv.FormatInt(int64(x), 10)
+	case int64:
+		return "n:" + strconv.FormatInt(x, 10)
+	case int32:
+		return "n:" + strconv.FormatInt(int64(x), 10)
+	case uint:
+		return "n:" + strconv.FormatUint(uint64(x), 10)
+	case uint64:
+		return "n:" + strconv.FormatUint(x, 10)
+	case uint32:
+		return "n:" + strconv.FormatUint(uint64(x), 10)
+	}
 	if f, ok := numericKeyFloat(v); ok {
 		if f == 0 {
 			f = 0 // 归一 -0.0 → 0
@@ -120,7 +142,9 @@ func encodeOne(v any) string {
 	}
 	switch x := v.(type) {
 	case string:
-		return "s:" + x
+		// the tuple separator (and the escape character) inside a string is
+		// escaped, so a value cannot imitate the boundary between two key parts
+		return "s:" + keyPartEscaper.Replace(x)
 	case bool:
 		return "b:" + strconv.FormatBool(x)
 	}
